@@ -375,6 +375,8 @@ DI = [(n, "!0 = " + t + "\n" + FOOT, fr) for n, t, fr in DI_RAW + DI_BOUNDS + DI
 # entries that concern neither metadata nor a clause family
 MISC = [
     ("cc.number-one", "declare cc 1 void @h()\n", ["cc 1"]),
+    ("blockaddress.function-addrspace", "@p = global i8 addrspace(1)* blockaddress(@f, %bb)\n@u = global i64 ptrtoint (i8 addrspace(1)* blockaddress(@f, %bb) to i64)\n\ndefine void @f() addrspace(1) {\n\tindirectbr i8 addrspace(1)* blockaddress(@f, %bb), [label %bb]\n\nbb:\n\tret void\n}\n",
+     ["@p = global i8 addrspace(1)* blockaddress(@f, %bb)", "ptrtoint (i8 addrspace(1)* blockaddress(@f, %bb) to i64)", "indirectbr i8 addrspace(1)* blockaddress(@f, %bb), [label %bb]"]),
     ("ifunc.expression-resolver", "@i = ifunc void (), bitcast (i8* ()* @r to void ()* ()*)\n@k = ifunc i32 (i32), i32 (i32)* ()* bitcast (i8* ()* @r to i32 (i32)* ()*)\n\ndefine i8* @r() {\n\tret i8* null\n}\n",
      ["@i = ifunc void (), void ()* ()* bitcast (i8* ()* @r to void ()* ()*)", "@k = ifunc i32 (i32), i32 (i32)* ()* bitcast (i8* ()* @r to i32 (i32)* ()*)"]),
 ]
